@@ -657,8 +657,11 @@ def _hasattr(interp, args, kwargs):
         if pe.obj.cls.name == "AttributeError":
             return False
         raise
-    except Undecided:
-        if isinstance(obj, ModuleObj):
+    except Undecided as und:
+        # a module that simply has no such name: False. Anything else (a construct outside the engine met while the module-level
+        # assignment was evaluated) must stay UNDECIDED - answering False there made a plug-in "invalid" and turned an engine
+        # limit into a VIOLATION of the units that load it
+        if isinstance(obj, ModuleObj) and str(und).startswith("name %s not found in module " % name):
             return False
         raise
 
